@@ -36,6 +36,13 @@ def main():
     finally:
         subprocess.run(['git', '-C', '/repo', 'checkout', '--', '.'])
         subprocess.run(['git', '-C', '/repo', 'clean', '-fdq'])
+        # the generated Lean facts were regenerated from the changed tree: bring them back to the clean tree
+        env = dict(os.environ, GOFLAGS='-mod=mod', GOPROXY='off', GOSUMDB='off', GOTOOLCHAIN='local')
+        tmpf = tempfile.mkdtemp(prefix='facts', dir='/root/scratch')
+        subprocess.run(['go', 'run', '.', '-repo', '/repo', '-facts', os.path.join(tmpf, 'facts.json'), '-lean',
+                        os.path.join(ROOT, 'lean', 'Mkdb', 'Generated')], cwd=os.path.join(ROOT, 'tools', 'extract'), env=env,
+                       stdout=subprocess.DEVNULL, stderr=subprocess.DEVNULL)
+        shutil.rmtree(tmpf, ignore_errors=True)
         shutil.rmtree(os.path.join(ROOT, 'evidence'))
         shutil.copytree(os.path.join(keep, 'evidence'), os.path.join(ROOT, 'evidence'))
         shutil.rmtree(keep)
